@@ -176,7 +176,7 @@ pub fn gen_conf(c: &mut Choices<'_>, space: &ConfSpace) -> Opts {
         if allowed(space, "newline_style", ns) && ns != "Auto" {
             o.push(("newline_style".into(), ns.into()));
         }
-        let lo = c.below(4);
+        let lo = if space.exclude.contains(&"blank_lines_lower_bound") { 0 } else { c.below(4) };
         let hi = lo + c.below(4 - lo);
         let hi = if c.chance(1, 2) { 1.max(lo) } else { hi };
         if lo != 0 {
@@ -228,10 +228,12 @@ pub fn gen_conf(c: &mut Choices<'_>, space: &ConfSpace) -> Opts {
         o.push((k.to_string(), v));
     }
     if !space.whitespace_axes && c.chance(1, 12) {
-        let lo = c.below(3);
+        let lo = if space.exclude.contains(&"blank_lines_lower_bound") { 0 } else { c.below(3) };
         let hi = lo + c.below(3);
-        if allowed(space, "blank_lines_lower_bound", "") && allowed(space, "blank_lines_upper_bound", "") {
-            o.push(("blank_lines_lower_bound".into(), lo.to_string()));
+        if allowed(space, "blank_lines_upper_bound", "") {
+            if lo != 0 {
+                o.push(("blank_lines_lower_bound".into(), lo.to_string()));
+            }
             o.push(("blank_lines_upper_bound".into(), hi.to_string()));
         }
     }
